@@ -138,6 +138,7 @@ template <typename LibW> struct WrBuf {
   template <typename T> std::size_t get_size(const T& v) { return s.GetSize(v); }
   std::size_t produced() const { return s.writer().size(); }
   LibW* raw() { return &s.writer(); }
+  void sync() {}
 };
 template <> struct Wr<BW> : WrBuf<nop::BufferWriter> { using WrBuf::WrBuf; enum { checked = 0, has_skip = 1 }; };
 template <> struct Wr<PBW> : WrBuf<nop::PedanticBufferWriter> { using WrBuf::WrBuf; enum { checked = 1, has_skip = 1 }; };
@@ -166,6 +167,7 @@ template <> struct Wr<SW> {
   template <typename T> std::size_t get_size(const T& v) { return s.GetSize(v); }
   std::size_t produced() const { return s.writer().stream().count(); }
   nop::StreamWriter<ModelOStream>* raw() { return &s.writer(); }
+  void sync() {}
 };
 #endif
 template <> struct Wr<FW> {
@@ -176,9 +178,10 @@ template <> struct Wr<FW> {
   template <typename T> std::size_t get_size(const T& v) { return s.GetSize(v); }
   std::size_t produced() const { return VrtFd::wpos; }
   nop::FdWriter* raw() { return &s.writer(); }
+  void sync() {}
 };
 template <typename Inner> struct Wr<BndW<Inner>> {
-  enum { checked = 1, has_skip = 1 };
+  enum { checked = 1, has_skip = Wr<Inner>::has_skip };
   Wr<Inner> inner;
   using LibInner = std::remove_pointer_t<decltype(std::declval<Wr<Inner>>().raw())>;
   nop::Serializer<nop::BoundedWriter<LibInner>> s;
@@ -188,6 +191,7 @@ template <typename Inner> struct Wr<BndW<Inner>> {
   template <typename T> std::size_t get_size(const T& v) { return s.GetSize(v); }
   std::size_t produced() const { return s.writer().size(); }
   nop::BoundedWriter<LibInner>* raw() { return &s.writer(); }
+  void sync() { inner.sync(); }
 };
 
 template <typename Tag> struct Rd;
@@ -228,7 +232,7 @@ template <> struct Rd<FR> {
   nop::FdReader* raw() { return &d.reader(); }
 };
 template <typename Inner> struct Rd<BndR<Inner>> {
-  enum { has_skip = 1 };
+  enum { has_skip = Rd<Inner>::has_skip };
   Rd<Inner> inner;
   using LibInner = std::remove_pointer_t<decltype(std::declval<Rd<Inner>>().raw())>;
   nop::Deserializer<nop::BoundedReader<LibInner>> d;
